@@ -11,7 +11,9 @@ using namespace vf;
 
 static std::string g_text(Tape &t, int maxLen = 24) {
   static const std::vector<std::string> chunks = {"%", "%4", "%41", "%4G", "%%41", "%0D", "%0d%0a", "%0A", "%0a%0D", "+", " ", "\r", "\n", "\r\n", "\n\r",
-                                                  "g", "a", "Z", "0", "-", "~", "\x7f", "\x80", "\xff", "\x01", "%fF", "%Ff", "%2B", "%25", "%00", "&", "=", "/"};
+                                                  "g", "a", "Z", "0", "-", "~", "\x7f", "\x80", "\xff", "\x01", "%fF", "%Ff", "%2B", "%25", "%00", "&", "=", "/",
+                                                  // escapes of other dialects (ECMAScript %uXXXX, \\x, &#, quoted-printable, doubled, overlong UTF-8): all malformed or plain here
+                                                  "%u0041", "%u00e9", "%U0041", "%u20AC", "%x41", "%%", "%+1", "%25u0041", "%c3%A9", "%C0%AF", "%e2%82%ac", "=41", "&#65;", "\\x41", "%u004", "%u"};
   std::string s;
   int n = t.range(0, maxLen);
   for (int i = 0; i < n; i++) {
